@@ -34,7 +34,7 @@ PROPERTY = "C14"
 LEVEL = "fault_enumeration"
 RULE = (
     "base scenario of one close path (socket adapter, stream endpoint, async TCP client idle / with a back-pressured sender / still connecting, "
-    "server-side client with or without a sender holding the lock, TLS aclose with a peer that answers close_notify promptly / late / never / FIN / RST, "
+    "server-side client with or without a sender holding the lock, teardown of the low-level server's connection task (handler returns / raises / peer half-closes / serving task group cancelled, with or without unsent bytes buffered against a peer that does not read), TLS aclose with a peer that answers close_notify promptly / late / never / FIN / RST, "
     "TLS wrap with a stalled / garbage / cut handshake, stapled stream and datagram transports with a failing or slow first half, wrapped-transport errors at call n); "
     "fault = task.cancel() on the closing task before loop iteration j, for every j of the base run; a case is one (scenario, j); "
     "non-trivial = the cancellation was delivered while the close was in progress"
@@ -614,6 +614,116 @@ def _h_server_client(world: World) -> None:
     _sweep(world, "server-client" + ("-sending" if sender else ""), scn, _x_server_client)
 
 
+# ================================================================================================ path: server-side teardown
+def _x_server_teardown(world: World, scn: dict, cancel_at: int | None) -> int:
+    """the per-connection task of the low-level AsyncStreamServer ends (handler returns / raises / peer half-closes / the
+    serving task group is cancelled = what a shutdown does) while unsent bytes may sit in the write buffer and the peer
+    does not read: the teardown must close the connection socket, whatever the state of the write buffer.  The sweep
+    cancels the serving task at every loop iteration after the teardown could have started."""
+    from easynetwork.lowlevel.api_async.servers.stream import AsyncStreamServer
+
+    ctx = Ctx(world, cancel_at)
+    net = ctx.net
+    path = "server-teardown-" + scn["end"]
+    state: dict[str, Any] = {}
+
+    async def handler(client):  # type: ignore[no-untyped-def]
+        state["client"] = client
+        state["go"].set()
+        try:
+            if scn["buffered"]:
+                with ctx.backend.move_on_after(scn["send_timeout"] / 64) as scope:
+                    await client.send_packet("z" * scn["pending"])
+                state["send_timed_out"] = scope.cancelled_caught()
+            if scn["end"] == "return":
+                return
+            if scn["end"] == "raise":
+                raise RuntimeError("handler failure (part of the workload)")
+            while True:  # "eof": wait for the peer's half-close; "cancel": wait until the serving task group is cancelled
+                yield
+        finally:
+            state["handler_done_at"] = ctx.w.now
+            state["done"].set()
+
+    async def main() -> None:
+        import logging
+
+        logging.getLogger("easynetwork").setLevel(logging.CRITICAL)
+        state["go"] = asyncio.Event()
+        state["done"] = asyncio.Event()
+        (listener,) = await ctx.backend.create_tcp_listeners("127.0.0.1", 5000, backlog=10)
+        server = AsyncStreamServer(listener, StreamProtocol(StringLineSerializer()), max_recv_size=8192)
+
+        async def serve() -> None:
+            async with ctx.backend.create_task_group() as tg:
+                await server.serve(handler, tg)
+
+        psock = net.connect_to_listener(net.listeners[("127.0.0.1", 5000)], capacity_ab=scn["cap"])
+        peer = Peer(ctx.w, psock)
+        peer.reading = False  # the peer never reads (unless peer_resumes)
+        if scn["peer_resumes"]:
+            ctx.w.after(scn["peer_resumes"] / 64, peer.resume_reading)
+
+        async def until_torn_down() -> None:
+            # the "close operation" under sweep: everything from the start of serve() to the end of the connection task
+            t = asyncio.get_running_loop().create_task(serve(), name="serve")
+            state["serve"] = t
+            try:
+                await state["go"].wait()
+                if scn["end"] == "eof":
+                    await asyncio.sleep(scn["pre"] / 64)
+                    peer.write(b"last\n")
+                    peer.close()  # FIN: the peer will not write any more; it still does not read
+                elif scn["end"] == "cancel":
+                    await asyncio.sleep(scn["pre"] / 64)
+                    t.cancel()
+                await state["done"].wait()
+                await asyncio.sleep(10.0)
+                state["closed_10s_after_handler_end"] = [s_ for s_ in ctx.w.sockets if s_.label.endswith("@srv")][0].sim_closed
+            finally:
+                if not t.done():
+                    t.cancel()
+                await asyncio.wait([t], timeout=50.0)
+
+        await ctx.close_under_sweep(until_torn_down)
+        await ctx.settle()
+        serve_task = state.get("serve")
+        if "client" not in state:
+            return  # cancelled before the connection was handed to the handler: nothing started
+        srv_sock = [s_ for s_ in ctx.w.sockets if s_.label.endswith("@srv")][0]
+        if scn["buffered"] and scn["end"] in ("return", "raise") and ctx.outcome == "ok" and not state.get("send_timed_out") and not scn["peer_resumes"]:
+            raise HarnessError("server-teardown: the send was expected to time out against a peer that does not read")
+        if serve_task is not None and not serve_task.done():
+            raise _fail(path, "serve-task-stranded", "the serving task group did not terminate after being cancelled", scn, cancel_at)
+        if not srv_sock.sim_closed or state.get("closed_10s_after_handler_end") is False:
+            raise _fail(
+                path,
+                "socket-open",
+                f"connection socket still open {'10' if srv_sock.sim_closed else format(ctx.w.now - state.get('handler_done_at', ctx.w.now), '.1f')} s after the connection handler ended ({scn['end']}); sweep outcome {ctx.outcome}; unsent bytes buffered={scn['buffered']}",
+                scn,
+                cancel_at,
+                site="buffered" if scn["buffered"] else "empty",
+            )
+        await server.aclose()
+
+    _run(ctx, main, path, scn)
+    return ctx.J
+
+
+def _h_server_teardown(world: World) -> None:
+    scn = {
+        "end": world.pick("end", ["return", "raise", "eof", "cancel"]),
+        "buffered": bool(world.choose("buffered", 3)),
+        "cap": world.pick("cap", [4096, 16384]),
+        "pending": world.pick("pending", [100000, 400000]),
+        "send_timeout": 1 + world.choose("send_timeout", 8),
+        "pre": world.choose("pre", 3),
+        "peer_resumes": world.pick("resumes", [0, 0, 600]),
+    }
+    world.fault("peer_stops_reading")
+    _sweep(world, "server-teardown-" + scn["end"], scn, _x_server_teardown)
+
+
 # ================================================================================================ path: TLS aclose / wrap
 def _x_tls(world: World, scn: dict, cancel_at: int | None) -> int:
     ctx = Ctx(world, cancel_at)
@@ -786,6 +896,7 @@ HARNESSES = [
     Harness("client", _h_client, weight=3, wall_limit=120.0),
     Harness("udp-client", _h_udp_client, weight=1, wall_limit=120.0),
     Harness("server-client", _h_server_client, weight=2, wall_limit=120.0),
+    Harness("server-teardown", _h_server_teardown, weight=2, wall_limit=120.0),
     Harness("tls", _h_tls, weight=4, wall_limit=180.0),
     Harness("stapled", _h_stapled, weight=2, wall_limit=180.0),
 ]
